@@ -183,12 +183,29 @@ def ref_diff_kind(a, b):
 import ttconv.style_properties as _styles
 
 
+def reveal_by_step(spec, on):
+  """an element that specifies tts:display="none" and is shown only while a timed set step makes it display="auto": its
+  presentation changes at the step's begin and end although its specified styles never show it"""
+  if not on or spec["body"] is None:
+    return spec
+  cands = [n for n in gen_model.walk(spec["body"]) if n["kind"] in ("div", "p", "span") and n["begin"] is None and n["kids"]]
+  if not cands:
+    return spec
+  n = cands[on % len(cands)]
+  b = gen_model.TIMES[on % len(gen_model.TIMES)]
+  n["styles"]["Display"] = _styles.DisplayType.none
+  n["anims"] = [a for a in n["anims"] if a[0] != "Display"] + [("Display", b, b + Fraction(1 + on % 3, 2), _styles.DisplayType.auto)]
+  return spec
+
+
 def cases(prof):
   def strat(tier):
-    # one document in four carries value-equal animation steps on two siblings (gen_model.equal_steps_on_siblings)
-    return st.builds(lambda spec, extra, eq: {"spec": gen_model.equal_steps_on_siblings(spec, _styles.NamedColors.red.value, False) if eq else spec,
-                                              "extra": extra}, gen_model.docspecs(prof),
-                     st.lists(st.fractions(0, 12, max_denominator=997), max_size=2), st.sampled_from([False, False, False, True]))
+    # one document in four carries value-equal animation steps on two siblings (gen_model.equal_steps_on_siblings), one in five an
+    # element that is displayed only while a set step reveals it
+    return st.builds(lambda spec, extra, eq, rv: {"spec": reveal_by_step(gen_model.equal_steps_on_siblings(spec, _styles.NamedColors.red.value, False)
+                                                                         if eq else spec, rv), "extra": extra}, gen_model.docspecs(prof),
+                     st.lists(st.fractions(0, 12, max_denominator=997), max_size=2), st.sampled_from([False, False, False, True]),
+                     st.sampled_from([0, 0, 0, 0, 1, 2, 3, 5, 7, 11]))
   return strat
 
 
